@@ -244,7 +244,7 @@ def run_engine(engine, seed, n, tier, start=0, shards=1, extra_env=None):
     (caseline, verdictline) and the class histogram."""
     per = (n + shards - 1) // shards
     procs = []
-    tmpd = tempfile.mkdtemp(prefix=f"run-{engine}-", dir=BUILD)
+    tmpd = tempfile.mkdtemp(prefix=f"r{engine[:3]}", dir=BUILD)  # short: generated reference names go up to the path limit
     env = dict(os.environ)
     env["PATH"] = BIN + os.pathsep + env.get("PATH", "")
     env["VERIF_BIN"] = BIN
@@ -295,7 +295,7 @@ def run_lines(lines):
     env = dict(os.environ)
     env["PATH"] = BIN + os.pathsep + env.get("PATH", "")
     env["VERIF_BIN"] = BIN
-    tmpd = tempfile.mkdtemp(prefix="replay-", dir=BUILD)
+    tmpd = tempfile.mkdtemp(prefix="rpl", dir=BUILD)
     env["VERIF_SCRATCH"] = tmpd
     p = subprocess.run([os.path.join(BIN, "drv"), "exec"], input="\n".join(lines) + "\n", stdout=subprocess.PIPE,
                        stderr=subprocess.PIPE, text=True, env=env, cwd=tmpd)
